@@ -521,33 +521,43 @@ def judge(col, tally, dec, s, meta, kind, posc, is_base, base_ok=True):
     return True
 
 
-def reencode_check(col, tally, base):
-    """(c) function-level: library decoder followed by library encoder returns the identical string."""
+def reencode_check(col, tally, base, only_form=None):
+    """(c) function-level: library decoder followed by library encoder returns the identical string, through every calling
+    convention of the encoders (bare payload + version, complete witness script, pubkeyhash_to_addr wrapper)."""
     enc = _lib()['enc']
     s, meta = base['s'], base['meta']
     fam = meta['family']
-    case = {'decoder': 'reencode', 's': s, 'meta': meta, 'kind': 'base', 'is_base': True}
-    got = None
-    try:
-        if fam == 'b58addr':
-            pl = codec.b58check_decode(s)
-            got = enc.pubkeyhash_to_addr_base58(enc.addr_base58_to_pubkeyhash(s), prefix=pl[:1])
-        elif fam == 'bech32':
-            hrp = s[:s.rfind('1')]
-            got = enc.pubkeyhash_to_addr_bech32(enc.addr_bech32_to_pubkeyhash(s, include_witver=True), prefix=hrp)
-        else:
-            return
-    except Exception as e:
-        got = 'EXC %s: %s' % (type(e).__name__, e)
-    col.probe('reencode')
-    tally.add('%s/base/reencode' % meta['cls'], ('reencode', meta['cls']), {'decoder': 'reencode', 's': s})
-    if got != s:
-        key = None
-        if fam == 'bech32':
-            d = codec.segwit_decode(s)
-            if d and len(d[2]) in (18, 30, 38):     # script form is 20/32/40 bytes long and is taken for a bare program
-                key = K_B32ENC_LEN
-        col.violation(key, '(c) decode + encode of %s gives %s' % (s, got), case, got, s)
+    forms = []
+    if fam == 'b58addr':
+        pl = codec.b58check_decode(s)
+        forms.append(('payload', lambda: enc.pubkeyhash_to_addr_base58(enc.addr_base58_to_pubkeyhash(s), prefix=pl[:1])))
+        forms.append(('wrapper', lambda: enc.pubkeyhash_to_addr(enc.addr_to_pubkeyhash(s), prefix=pl[:1], encoding='base58')))
+        forms.append(('hex', lambda: enc.pubkeyhash_to_addr_base58(enc.addr_base58_to_pubkeyhash(s, as_hex=True), prefix=pl[:1].hex())))
+    elif fam == 'bech32':
+        hrp = s[:s.rfind('1')]
+        d = codec.segwit_decode(s)
+        forms.append(('script', lambda: enc.pubkeyhash_to_addr_bech32(enc.addr_bech32_to_pubkeyhash(s, include_witver=True), prefix=hrp)))
+        if d and len(d[2]) in (20, 32, 40):          # documented convention: a 20/32/40 byte input is the bare witness program
+            forms.append(('program', lambda: enc.pubkeyhash_to_addr_bech32(enc.addr_bech32_to_pubkeyhash(s), prefix=hrp, witver=d[1])))
+            forms.append(('wrapper', lambda: enc.pubkeyhash_to_addr(enc.addr_to_pubkeyhash(s), prefix=hrp, encoding='bech32', witver=d[1])))
+            forms.append(('hex', lambda: enc.pubkeyhash_to_addr_bech32(enc.addr_bech32_to_pubkeyhash(s, as_hex=True), prefix=hrp, witver=d[1])))
+    for form, fn in forms:
+        if only_form and form != only_form:
+            continue
+        case = {'decoder': 'reencode', 'form': form, 's': s, 'meta': meta, 'kind': 'base', 'is_base': True}
+        try:
+            got = fn()
+        except Exception as e:
+            got = 'EXC %s: %s' % (type(e).__name__, e)
+        col.probe('reencode')
+        tally.add('%s/base/reencode-%s' % (meta['cls'], form), ('reencode', form, meta['cls']), {'decoder': 'reencode', 'form': form, 's': s})
+        if got != s:
+            key = None
+            if fam == 'bech32' and form == 'script':
+                d = codec.segwit_decode(s)
+                if d and len(d[2]) in (18, 30, 38):     # script form is 20/32/40 bytes long and is taken for a bare program
+                    key = K_B32ENC_LEN
+            col.violation(key, '(c) decode + encode (%s form) of %s gives %s' % (form, s, got), case, got, s)
 
 
 # ------------------------------------------------------------------ generators
@@ -559,7 +569,18 @@ def _hash_feature(rnd, n, i):
         return b'\0\0' + rnd.randbytes(n - 2), 'lead00'
     if f == 2:
         return rnd.randbytes(n - 1) + b'\0', 'trail0'
+    if f == 3:
+        return _header_like(rnd, n, rnd.choice(HDR_FIRST), n - 2), 'hdr'
     return rnd.randbytes(n), 'rnd'
+
+
+HDR_FIRST = [0x00] + list(range(0x51, 0x61))          # OP_0, OP_1..OP_16: what a witness script starts with
+HDR_SECOND = [0x12, 0x1e, 0x26, 0x14, 0x20, 0x28]      # push sizes of 18/30/38 and 20/32/40 byte programs
+
+
+def _header_like(rnd, n, first, second):
+    """payload that looks like the head of a script / witness program: <version opcode><push size>..."""
+    return bytes([first, second]) + rnd.randbytes(n - 2)
 
 
 def _secret_feature(rnd, i):
@@ -610,6 +631,18 @@ def gen_bases(seed, counts):
         ln = rnd.choice([20, 32, 32, 40, 2, 18, 30, 33, 38])
         add(codec.segwit_encode(chain.NETWORKS[n]['hrp'], ver, rnd.randbytes(ln)), 'bech32',
             'bech32/v%s-%s' % ('1' if ver == 1 else '2+', ln if ln in (20, 32, 40) else 'odd'), network=n, hashfeat='rnd')
+    # --- payloads that look like script / witness-program headers (rule (c) incl. every re-encode form)
+    for ver, ln in ((0, 20), (0, 32), (1, 32), (1, 20), (rnd.randrange(2, 17), 40), (rnd.randrange(2, 17), 32)):
+        firsts = [0x00, 0x51, 0x60, rnd.randrange(0x52, 0x60)]
+        for first in firsts:
+            for second in (ln - 2, rnd.choice([x for x in HDR_SECOND if x != ln - 2])):
+                n = rnd.choice(nets)
+                add(codec.segwit_encode(chain.NETWORKS[n]['hrp'], ver, _header_like(rnd, ln, first, second)), 'bech32',
+                    'bech32/v%s-%d-hdr' % ('0' if ver == 0 else '1' if ver == 1 else '2+', ln), network=n, hashfeat='hdr')
+    for kind in ('p2pkh', 'p2sh'):
+        for first, second in ((0x00, 0x12), (0x51, 0x12), (0x00, 0x14), (0x76, 0xa9), (0xa9, 0x14)):
+            n = rnd.choice(nets)
+            add(chain.address_base58(n, kind, _header_like(rnd, 20, first, second)), 'b58addr', 'b58addr/%s/%s' % (n, kind), network=n, hashfeat='hdr')
     # --- WIF
     j = rnd.randrange(8)
     for n in nets:
@@ -1009,7 +1042,7 @@ def replay(case, col):
     tally = Tally()
     meta = case['meta']
     if case['decoder'] == 'reencode':
-        reencode_check(col, tally, {'s': case['s'], 'meta': meta})
+        reencode_check(col, tally, {'s': case['s'], 'meta': meta}, only_form=case.get('form'))
     else:
         judge(col, tally, case['decoder'], case['s'], meta, case.get('kind', 'replay'), '', bool(case.get('is_base')))
     tally.flush(col)
